@@ -631,10 +631,15 @@ func runLifecycleScenario(sc *lcScenario, emitEv func(M)) {
 			}
 			emit("AddCust", x, ret)
 		case "DelCust":
+			if sess[x] == nil || sess[x].cust == nil {
+				emit("DelCust", x, "nosession") // the run has left the model's path: for the specification to reject
+				break
+			}
 			sm.DelCustomizePubSession(sess[x].cust)
 			emit("DelCust", x, "ok")
 		case "StartPs":
-			resp := sm.CtrlStartRtpPub(base.ApiCtrlStartRtpPubReq{StreamName: stream, Port: 0, TimeoutMs: 60000})
+			// every second scenario: the TCP variant of the GB28181 input (a listener instead of a UDP socket)
+			resp := sm.CtrlStartRtpPub(base.ApiCtrlStartRtpPubReq{StreamName: stream, Port: 0, TimeoutMs: 60000, IsTcpFlag: sc.Sc % 2})
 			ret := "ok"
 			if resp.ErrorCode != base.ErrorCodeSucc {
 				ret = "dup"
